@@ -68,7 +68,7 @@ def event_of(e, cn: Canon):
     if k == "codec":
         return ("codec", cn.stream(e[1]), e[2].uid, tuple(cn.value(x) for x in e[3]), cn.term(e[4]))
     if k == "repeat":
-        return ("repeat", cn.term(e[1]), id(e[2]))
+        return ("repeat", cn.term(e[1]), len(e[2]))
     if k == "alloc":
         return ("alloc", cn.stream(e[1]), cn.value(e[3]) if e[3] is not None else None)
     if k in ("getvalue", "tell", "close", "flush"):
@@ -196,6 +196,29 @@ def subst(t, x, y):
 
 
 HOLE = ("X",)
+
+
+def _upper_bound(cond, pol, L):
+    """Upper bound on term L implied by one decided comparison `cond` (polarity pol), or None."""
+    if not isinstance(cond, tuple) or len(cond) != 3 or cond[0] not in ("le", "lt", "ge", "gt"):
+        return None
+    op, a, b = cond
+    ka = a[1] if a[0] == "k" and isinstance(a[1], int) else None
+    kb = b[1] if b[0] == "k" and isinstance(b[1], int) else None
+    if kb is not None and linear(a, L) is not None and linear(a, L)[0] == 1:
+        c, off = kb, linear(a, L)[1]
+    elif ka is not None and linear(b, L) is not None and linear(b, L)[0] == 1:
+        c, off = ka, linear(b, L)[1]
+        op = {"le": "ge", "lt": "gt", "ge": "le", "gt": "lt"}[op]
+    else:
+        return None
+    if not pol:
+        op = {"le": "gt", "lt": "ge", "ge": "lt", "gt": "le"}[op]
+    if op == "le":
+        return c - off
+    if op == "lt":
+        return c - 1 - off
+    return None
 
 
 def pack_const(fmt, v) -> bytes:
@@ -437,6 +460,30 @@ class Describer:
 
     def match_after_prefix(self, prefix, X, rest):
         d = {"k": "scalar", "prefix": prefix, "null": None, "conv": None, "guards": [], "raises": []}
+        pre_guards = []
+        rest = self.skip_guards(rest, pre_guards)
+        out = self._match_after_prefix(prefix, X, rest, d)
+        if pre_guards and isinstance(out, dict) and out.get("k") != "opaque":
+            out.setdefault("prefix_guards", []).extend(pre_guards)
+            out.setdefault("raises", [])
+            out["raises"] = sorted(set(out["raises"]) | {e for g in pre_guards for e in g["else"]})
+        return out
+
+    def skip_guards(self, n, acc):
+        """Skip `if c: <pure raise> else: ...` nodes (range / validity guards), recording them."""
+        while n is not None and n.kind == "if" and n.cond[0] in ("le", "lt", "ge", "gt", "isinstance"):
+            ly, ln_ = pure_leaves(n.yes), pure_leaves(n.no)
+            if ln_ and all(l[1] == "raise" for l in ln_) and not (ly and all(l[1] == "raise" for l in ly)):
+                acc.append({"cond": n.cond, "holds": True, "else": sorted({l[2] for l in ln_})})
+                n = skip_noise(n.yes)
+            elif ly and all(l[1] == "raise" for l in ly) and n.cond[0] not in ("eq",):
+                acc.append({"cond": n.cond, "holds": False, "else": sorted({l[2] for l in ly})})
+                n = skip_noise(n.no)
+            else:
+                break
+        return n
+
+    def _match_after_prefix(self, prefix, X, rest, d):
         # optional null arm: if lin(X) == c
         n = rest
         if n is not None and n.kind == "if" and n.cond[0] == "eq":
@@ -453,6 +500,10 @@ class Describer:
                     elif kind == "raise":
                         d["null"] = {"wire": wire_null, "then": "raise:" + val}
                         n = skip_noise(n.no)
+        post = []
+        n = self.skip_guards(n, post)
+        if post:
+            d["raises"] = sorted(set(d["raises"]) | {e for g in post for e in g["else"]})
         if n is None:
             return opaque("no continuation after the null arm")
         # marked (enum switch over the prefix) -----------------------------------------------
@@ -577,10 +628,11 @@ class Describer:
         if leaves is None:
             return opaque("entity reader: stream events after the tagged section")
         rets = [l for l in leaves if l[1] == "ret"]
-        if len(rets) != 1:
-            return opaque("entity reader with several results")
+        if not rets:
+            return opaque("entity reader without a returning path")
         out["result"] = rets[0][3].path.value
         out["result_term"] = rets[0][2]
+        out["results"] = [{"conds": [(c, pol) for c, pol in l[0]], "value": l[3].path.value} for l in rets]
         if isinstance(out["result"], InstV):
             out["class"] = out["result"].cls.ref
         out["raises"] = sorted({l[2] for l in leaves if l[1] == "raise"})
@@ -699,6 +751,9 @@ class Describer:
             if cases is not None:
                 prefix, alts = cases
                 return {"k": "scalar", "prefix": prefix, "conv": ["cases", alts], "null": null, "guards": guards}
+            lp = self.lenpref_cases(n, V, null, guards)
+            if lp is not None:
+                return lp
             return opaque(f"writer forks on {show_term(n.cond)}")
         if n.kind == "ret":
             return {"k": "nothing", "null": null, "guards": guards}
@@ -806,6 +861,97 @@ class Describer:
             return None
         p = prefixes.pop()
         return ({"k": "varint"} if p[0] == "varint" else {"k": "fixed", "fmt": p[1]}), out
+
+    def wire_items(self, t):
+        """Normalise the argument of a write() into wire items:
+        ('fixed', fmt, value) | ('byte', value) | ('const', bytes) | ('blob', term)."""
+        if t[0] == "k" and isinstance(t[1], bytes):
+            return [("const", t[1])]
+        if t[0] == "pack" and len(t) == 3:
+            return [("fixed", t[1], t[2])]
+        if t[0] == "to_bytes" and len(t) == 5 and t[2] == ("k", 1):
+            return [("byte", t[1])]
+        if t[0] == "bytes-of":
+            return [("byte", x) for x in t[1]]
+        if t[0] == "add" and len(t) == 3:
+            return self.wire_items(t[1]) + self.wire_items(t[2])
+        return [("blob", t)]
+
+    def lenpref_cases(self, n, V, null, guards):
+        """A length-prefixed writer defined by cases (e.g. a single-byte fast path for short values):
+        every returning leaf must write prefix(len(payload) + bias) followed by the payload.  A prefix
+        written as one raw byte stands for a varint only while its value stays below 128."""
+        leaves = []
+
+        def walk(node, conds, items):
+            node = skip_noise(node)
+            if node is None:
+                return False
+            if node.kind == "if":
+                return walk(node.yes, conds + [(node.cond, True)], items) and walk(node.no, conds + [(node.cond, False)], items)
+            if node.kind == "raise":
+                leaves.append((conds, None, node.exc))
+                return True
+            if node.kind == "ret":
+                leaves.append((conds, items, None))
+                return True
+            if node.kind != "ev" or node.ev[1] != "P0":
+                return False
+            if node.ev[0] == "wvarint":
+                return walk(node.next, conds, items + [("varint", node.ev[2])])
+            if node.ev[0] == "write":
+                return walk(node.next, conds, items + self.wire_items(node.ev[2]))
+            return False
+        if not walk(n, [], []):
+            return None
+        shapes = []
+        raises = sorted({e for c, it, e in leaves if it is None})
+        for conds, items, exc in leaves:
+            if items is None:
+                continue
+            if len(items) != 2 or items[1][0] != "blob" or items[0][0] not in ("varint", "fixed", "byte"):
+                return None
+            P = items[1][1]
+            if P == V:
+                payload = {"k": "bytes"}
+            elif P[0] == "encode" and P[1] == V:
+                payload = {"k": "text", "codec": list(P[2])}
+            else:
+                return None
+            L = ("len", P)
+            T = items[0][-1]
+            lin = linear(T, L)
+            if lin is None or lin[0] != 1:
+                return None
+            if items[0][0] == "fixed":
+                prefix = {"k": "fixed", "fmt": items[0][1]}
+            elif items[0][0] == "varint":
+                prefix = {"k": "varint"}
+            else:
+                # one raw byte: bound of the prefix value under this leaf's conditions
+                hi = None
+                for c, pol in conds:
+                    b = _upper_bound(c, pol, L)
+                    if b is not None:
+                        hi = b if hi is None else min(hi, b)
+                top = None if hi is None else hi + lin[1]
+                if top is not None and top <= 127:
+                    prefix = {"k": "varint"}
+                else:
+                    prefix = {"k": "single-byte", "max_value": top,
+                              "why": f"the length prefix is written as one raw byte for prefix values up to {top}; "
+                                     f"a varint needs two bytes from 128 on"}
+            shapes.append((dkey(prefix), lin[1], dkey(payload), prefix, payload))
+        if not shapes:
+            return None
+        bad = [x for x in shapes if x[3]["k"] == "single-byte"]
+        pick = bad[0] if bad else shapes[0]
+        if any((x[1], x[2]) != (pick[1], pick[2]) for x in shapes):
+            return None
+        if not bad and any(x[0] != pick[0] for x in shapes):
+            return None
+        g = list(guards) + [{"cond": ("raise-leaf",), "holds": True, "else": raises}] if raises else list(guards)
+        return {"k": "lenpref", "prefix": pick[3], "bias": pick[1], "null": null, "payload": pick[4], "guards": g, "by_cases": len(shapes)}
 
     def strip_none(self, t):
         alts = [a for a in self.I.alts(t) if a is not LibClass.get("NoneType")]
